@@ -351,10 +351,21 @@ func checkAtomicOperations(r *Reporter, p *Prog, rule, pkg, typ string, mutexFie
 				}
 				switch x := c.(type) {
 				case *ast.ForStmt:
-					walk(x, true)
+					// the init statement runs once, before the loop
+					if x.Init != nil {
+						walk(&ast.BlockStmt{List: []ast.Stmt{x.Init}}, loop)
+					}
+					rest := &ast.ForStmt{Cond: x.Cond, Post: x.Post, Body: x.Body}
+					walk(rest, true)
 					return false
 				case *ast.RangeStmt:
-					walk(x, true)
+					// the range operand is evaluated once, before the loop
+					if x.X != nil {
+						walk(&ast.ExprStmt{X: x.X}, loop)
+					}
+					if x.Body != nil {
+						walk(x.Body, true)
+					}
 					return false
 				case *ast.CallExpr:
 					if op, path := lockOp(info, x); op == "Lock" || op == "RLock" {
